@@ -369,7 +369,9 @@ example : SpellsPlus RulesExample.cfg RulesExample.jointUses RulesExample.jointW
     file, environment value and argv; no hypothesis on the configuration beyond one initial value per
     argument): every destination holds `denote` of the values its argument was given, in the order the
     evaluation logged them (`hf.uses`, which by `C02_parse_faithful(_sources)` is what the words spell,
-    and by `C01_spelling_unambiguous` is determined by the words). -/
+    and is determined by them: for argv alone by `C01_spelling_unambiguous`, for argument file +
+    environment value + argv by `C02_sources_spelling_unambiguous` / `C02_sources_log_determined`,
+    Props/C02b.lean). -/
 theorem C01_accepted_destinations (cfg : Cfg) (inits : List DVal) (hin : cfg.args.length ≤ inits.length)
     (src : Sources) (argv : List Word) (hf : HState)
     (he : evalArguments cfg (cfg.initState inits) src argv = .ok hf)
